@@ -46,6 +46,21 @@ impl MergePolicy for AnyTwo {
     }
 }
 
+/// `lazy2`: merge any two mergeable segments, but only while an uncommitted delete is pending
+/// (armed by `del`, disarmed by commit / rollback): policy merges then run in the middle of a
+/// transaction, which is when a wrong merge target would publish uncommitted deletes.
+pub static LAZY_ARMED: std::sync::atomic::AtomicBool = std::sync::atomic::AtomicBool::new(false);
+#[derive(Debug)]
+pub struct LazyTwo;
+impl MergePolicy for LazyTwo {
+    fn compute_merge_candidates(&self, segments: &[SegmentMeta]) -> Vec<MergeCandidate> {
+        if !LAZY_ARMED.load(std::sync::atomic::Ordering::SeqCst) {
+            return vec![];
+        }
+        AnyTwo.compute_merge_candidates(segments)
+    }
+}
+
 pub struct Fields {
     pub id: Field,
     pub t: Field,
@@ -121,6 +136,7 @@ impl World {
         match self.cfg.merge.as_str() {
             "none" => Box::new(NoMergePolicy),
             "any2" => Box::new(AnyTwo),
+            "lazy2" => Box::new(LazyTwo),
             _ => {
                 let mut p = LogMergePolicy::default();
                 p.set_min_num_segments(2);
@@ -220,6 +236,11 @@ impl World {
     }
 
     fn exec_inner(&mut self, name: &str, op: &Value) -> Value {
+        match name {
+            "del" | "run" => LAZY_ARMED.store(true, std::sync::atomic::Ordering::SeqCst),
+            "commit" | "prepare_commit" | "rollback" | "new_writer" | "drop_writer" => LAZY_ARMED.store(false, std::sync::atomic::Ordering::SeqCst),
+            _ => {}
+        }
         let nowriter = || json!({"ev":name,"ok":false,"err":"nowriter"});
         match name {
             "new_writer" => match self.open_writer() {
